@@ -1,17 +1,22 @@
 #!/bin/bash
-# usage: run_batch.sh "C02 C05 ..."   confirm each round-3 seed (worktrees /tmp/seed3/Cxx -> seeded/Cxx-3), then evaluate in sandbox /tmp/mut2
-# (sandbox /verif = committed HEAD over a copy of the working tree, so agents' half-done edits are not used)
+# usage: tools/seed_run_batch.sh <round> "C02 C05 ..."   confirm each seed delivered in /tmp/seed<round>/Cxx, store it as
+# seeded/Cxx-<round>, then evaluate it in the private sandbox /tmp/mut<round> (worktree of /repo + committed /verif HEAD)
+R=$1; shift
 cd /verif
 for p in $1; do
   echo "=== confirm $p"
-  tools/confirm_seed.sh /tmp/seed3/$p $p-3 --features test-internals,verif-hooks 2>&1 | tail -2
+  tools/confirm_seed.sh /tmp/seed$R/$p $p-$R --features test-internals,verif-hooks 2>&1 | tail -2
 done
-tools/mk_sandbox.sh /tmp/mut2 >/dev/null 2>&1
-git -C /verif archive HEAD | tar -x -C /tmp/mut2/verif
-sed -i "s#path = \"/repo#path = \"/tmp/mut2/repo#g" /tmp/mut2/verif/harness/Cargo.toml
+S=/tmp/mut$R
+mkdir -p $S
+[ -d $S/repo ] || git -C /repo worktree add --detach $S/repo HEAD >/dev/null 2>&1
+mkdir -p $S/verif
+rsync -a --delete --exclude out --exclude .git --exclude harness/target /verif/ $S/verif/
+git -C /verif archive HEAD | tar -x -C $S/verif
+sed -i "s#path = \"/repo#path = \"$S/repo#g" $S/verif/harness/Cargo.toml
 for p in $1; do
-  if [ -f /verif/seeded/$p-3/patch.diff ]; then
+  if [ -f /verif/seeded/$p-$R/patch.diff ]; then
     echo "=== eval $p"
-    python3 tools/eval_seed.py /tmp/mut2 /verif/seeded/$p-3/patch.diff $p 2>&1 | tail -1
+    python3 tools/eval_seed.py $S /verif/seeded/$p-$R/patch.diff $p 2>&1 | tail -1
   fi
 done
